@@ -2,6 +2,8 @@
   C08 — state-machine runs follow the check/action discipline.
   (initial set; the trace-language theorem is in RapidProofs/StateMachine.lean)
 -/
+import RapidModel.Generated.CallOrders
+import RapidModel.Generated.Consts
 import RapidProofs.Signals
 
 namespace Rapid.C08
@@ -29,5 +31,15 @@ theorem invariant_errorf_stops (e : Env) (n : Nat) (hn : n ≠ 0) (actions : Nat
     (src : Src) (ts : TS) :
     ((smRepeat e n actions (.errorf msg (.ret .nil))).run src ts).res = .error (.stop msg siteInitCheck) := by
   simp [smRepeat, hn, Prog.bind, Prog.run, Out.ofRes, Out.after]
+
+/-! ### facts re-read from /repo's source on every run -/
+
+theorem tries_source : Rapid.Generated.c_validActionTries = validActionTries ∧
+    Rapid.Generated.c_noValidActionsMsg = noValidActionsMsg ∧ Rapid.Generated.flag_steps = 30 := by decide
+
+/-- `T.Repeat`: the statements in order — …, initial `sm.check`, `failOnError`, the loop -/
+theorem repeat_order_source :
+    Rapid.Generated.order_Repeat = ["call t.Helper", "assign", "call make", "for", "if", "call sort.Strings", "assign", "if",
+      "call newRepeat", "assign", "call sm.check", "call t.failOnError", "for"] := by decide
 
 end Rapid.C08
